@@ -145,6 +145,8 @@ def cases(tier):
     yield {"region": 1, "pixel": 0.025, "kernel": 0, "hires": True}
     yield {"kind": "int-dtype"}
     yield {"kind": "mutated-params"}
+    for s in UNIT_SCALES:
+        yield {"kind": "units", "scale": s}
 
 
 INT_DIAGRAMS = [[[0, 3], [10, 210], [5, 255]], [[2, 250]], [[0, 120], [0, 127], [7, 100]]]
@@ -176,6 +178,40 @@ def int_dtype_case(case, ctx):
                                   observed=img.tolist(), expected=ref.tolist(), extra={"diagram": D, "dtype": str(np.dtype(dt)), "weight": weight})
     ctx.nontriv("integer_dtype_diagrams")
     ctx.outcome("int-dtype")
+
+
+UNIT_SCALES = [1e-4, 1e-6, 1e-9, 1e3, 1e6]
+
+
+def units_case(case, ctx):
+    """The same picture in other physical units: coordinates, ranges and pixel scaled by s, covariance ENTRIES by
+    s^2 (1e-8 ... 1e-18 for small units: far below any absolute tolerance a comparison of matrix entries might
+    use).  The image of the scaled diagram is the unit-scale image with the weights scaled accordingly."""
+    from persim import PersistenceImager
+
+    s = case["scale"]
+    D1 = [[0.25, 1.0], [0.5, 2.25], [1.5, 1.75], [1.0, 2.0], [-0.25, 0.5]]
+    kernels = [("gauss_corr", 0.04, 0.09, 0.6), ("gauss_corr", 0.05, 0.02, -0.95), ("gauss_diag", 0.04, 0.16), ("gauss_diag", 0.0501, 0.05),
+               ("gauss_iso", 0.06), ("gauss_scalar", 0.05), ("uniform", 0.6, 0.9)]
+    for kernel in kernels:
+        ks = (kernel[0],) + tuple(v * s * s for v in kernel[1:3]) + tuple(kernel[3:]) if kernel[0] != "uniform" else ("uniform", kernel[1] * s, kernel[2] * s)
+        if kernel[0] in ("gauss_iso", "gauss_scalar"):
+            ks = (kernel[0], kernel[1] * s * s)
+        for weight in (("persistence", 1.0), ("linear_ramp", 0.25, 1.0, 0.0, 2.0 * s)):
+            im = PersistenceImager(birth_range=(0.0, 2.0 * s), pers_range=(0.0, 2.0 * s), pixel_size=0.5 * s, **imager_kwargs(ks, weight))
+            res = tuple(im.resolution)
+            D = [[b * s, d * s] for b, d in D1]
+            bp = [(b, d - b) for b, d in D]
+            ref = OI.image_ref(bp, oracle_kernel(ks), weight, im.birth_range[0], im.pers_range[0], 0.5 * s, res)
+            wmax = max(abs(OI.weight_value(weight, b, p)) for b, p in bp)
+            ctx.state(("units", s, kernel, weight))
+            img = np.asarray(ctx.call(im.transform, np.array(D, dtype=float)))
+            ctx.valid()
+            if img.shape != ref.shape or not np.all(np.abs(img - ref) <= TOL * wmax):
+                ctx.violation("pixel-value-units", "image in units of %g differs from the weighted kernel mass" % s,
+                              observed=img.tolist(), expected=ref.tolist(), extra={"scale": s, "kernel": ks, "weight": weight, "diagram": D})
+    ctx.nontriv("other_physical_units", key=s)
+    ctx.outcome(("units", s))
 
 
 def mutated_params_case(case, ctx):
@@ -221,6 +257,8 @@ def run_case(case, ctx):
 
     if case.get("kind") == "int-dtype":
         return int_dtype_case(case, ctx)
+    if case.get("kind") == "units":
+        return units_case(case, ctx)
     if case.get("kind") == "mutated-params":
         return mutated_params_case(case, ctx)
 
